@@ -209,3 +209,16 @@ func (p *FakeProxy) ObjLen(key string) int {
 	defer p.mu.Unlock()
 	return len(p.Objs[key])
 }
+
+// ContainsCallsFor returns how many Contains calls the backend has received for key.
+func (p *FakeProxy) ContainsCallsFor(key string) int {
+	p.mu.Lock()
+	defer p.mu.Unlock()
+	n := 0
+	for _, k := range p.Conts {
+		if k == key {
+			n++
+		}
+	}
+	return n
+}
